@@ -47,8 +47,8 @@ Proof. unfold lookup_entity. apply noof_bind; [apply lookup_entity2_noof|intros;
 
 Definition values_of (e : entity) : list ent_value := match en_values e with Some l => l | None => [] end.
 
-Lemma expand_values_noof rec pp vs :
-  (forall n, In (XvEntity n) vs -> noof (rec n)) -> noof (expand_values rec pp vs).
+Lemma expand_values_noof rec pp ia vs :
+  (forall n, In (XvEntity n) vs -> noof (rec n)) -> noof (expand_values rec pp ia vs).
 Proof.
   induction vs as [|v vs IH]; intros H; cbn [expand_values]; [discriminate|].
   apply noof_bind.
@@ -95,9 +95,9 @@ Proof.
   congruence.
 Qed.
 
-Lemma expand_checked_noof pp ents : forall fuel path name,
+Lemma expand_checked_noof pp ia ents : forall fuel path name,
   NoDup path -> incl path (universe ents) -> (length (universe ents) + 2 <= fuel + length path)%nat ->
-  noof (expand_gen true pp fuel ents path name).
+  noof (expand_gen true pp ia fuel ents path name).
 Proof.
   induction fuel as [|f IH]; intros path name Hnd Hincl Hlen.
   - exfalso. pose proof (NoDup_incl_length Hnd Hincl). lia.
@@ -108,6 +108,14 @@ Proof.
     + constructor; [apply existsb_str_false; exact E|exact Hnd].
     + intros x [<-|Hx]; [eapply lookup_in_universe; exact He|apply Hincl; exact Hx].
     + cbn [length]. lia.
+Qed.
+
+Theorem expand_attr_total ents name : expand_attr ents name <> IOof.
+Proof.
+  unfold expand_attr, expand_fuel. apply expand_checked_noof.
+  - constructor.
+  - intros x [].
+  - unfold universe. rewrite app_length, map_length. cbn [predefined_names length]. lia.
 Qed.
 
 Theorem expand_total ents name : expand ents name <> IOof.
@@ -124,9 +132,9 @@ Definition wf_table (tbl : list entity) : Prop :=
     forall name e, lookup_entity tbl name = IOk e ->
                    forall n, In (XvEntity n) (values_of e) -> (rank n < rank name)%nat.
 
-Lemma expand_unchecked_noof pp tbl rank :
+Lemma expand_unchecked_noof pp ia tbl rank :
   (forall name e, lookup_entity tbl name = IOk e -> forall n, In (XvEntity n) (values_of e) -> (rank n < rank name)%nat) ->
-  forall fuel path name, (rank name < fuel)%nat -> noof (expand_gen false pp fuel tbl path name).
+  forall fuel path name, (rank name < fuel)%nat -> noof (expand_gen false pp ia fuel tbl path name).
 Proof.
   intros Hr. induction fuel as [|f IH]; intros path name Hlt; [lia|].
   cbn [expand_gen andb].
